@@ -15,7 +15,7 @@ Definition to_side (x : side) (evs : list event) : list wire :=
 
 Definition wsid (w : wire) : option N :=
   match w with
-  | WData s _ _ | WBlock s _ _ _ _ _ | WPrio s _ | WRst s _ => Some s
+  | WData s _ _ | WBlock s _ _ _ _ _ _ | WPrio s _ | WRst s _ => Some s
   | _ => None
   end.
 Definition on_stream (s : N) (ws : list wire) : list wire :=
@@ -78,7 +78,7 @@ Definition frame_sid (f : frame) : list N :=
   end.
 Definition wire_sid (w : wire) : list N :=
   match w with
-  | WData s _ _ | WBlock s _ _ _ _ _ | WPrio s _ | WRst s _ | WWin s _ => [s]
+  | WData s _ _ | WBlock s _ _ _ _ _ _ | WPrio s _ | WRst s _ | WWin s _ => [s]
   | _ => []
   end.
 (* streams named anywhere in the script or the observation *)
@@ -118,8 +118,8 @@ Definition ends (es : bool) : list atom := if es then [AEnd] else [].
 Definition atoms_w (raw : bool) (w : wire) : list atom :=
   match w with
   | WData _ es d => map AByte d ++ ends es
-  | WBlock _ None es pr _ fid => AHdr fid (norm_pr raw pr) :: ends es
-  | WBlock _ (Some p) _ _ _ fid => [APush p fid]
+  | WBlock _ None es pr _ fid _ => AHdr fid (norm_pr raw pr) :: ends es
+  | WBlock _ (Some p) _ _ _ fid _ => [APush p fid]
   | WPrio _ p => [APrio p]
   | WRst _ c => [ARst c]
   | _ => []
@@ -183,8 +183,8 @@ Definition on_eqb (p q : option N) : bool :=
 Definition wire_eqb (a b : wire) : bool :=
   match a, b with
   | WData s e d, WData s' e' d' => N.eqb s s' && Bool.eqb e e' && bytes_eqb d d'
-  | WBlock s p e pr q f, WBlock s' p' e' pr' q' f' =>
-      N.eqb s s' && on_eqb p p' && Bool.eqb e e' && oprio_eqb pr pr' && Nat.eqb q q' && N.eqb f f'
+  | WBlock s p e pr q f t, WBlock s' p' e' pr' q' f' t' =>
+      N.eqb s s' && on_eqb p p' && Bool.eqb e e' && oprio_eqb pr pr' && Nat.eqb q q' && N.eqb f f' && N.eqb t t'
   | WPrio s p, WPrio s' p' => N.eqb s s' && prio_eqb p p'
   | WRst s c, WRst s' c' => N.eqb s s' && N.eqb c c'
   | WSettings k, WSettings k' => kv_eqb k k'
@@ -303,16 +303,46 @@ Definition b_direct (ls : list label) (o : obs) : bool :=
   forallb (fun y => wires_eqb (directs (other y) (concat o))
                               (flat_map direct_of (from y (pre (length o) ls)))) sides.
 
+(* "decode under ITS OWN HPACK state": the dynamic table the relay's encoder
+   toward x uses never exceeds what x allows.  x's j-th SETTINGS frame is in
+   force once the other endpoint's j-th SETTINGS ACK has been forwarded; until
+   then x must accept both sizes.  Bound = max of the HEADER_TABLE_SIZE in force
+   and of every value x announced in a SETTINGS frame not yet acknowledged. *)
+Definition settings_of (x : side) (ls : list label) : list (list (N * N)) :=
+  flat_map (fun f => match f with FSettings kv => [kv] | _ => [] end) (from x ls).
+Definition acks_of (x : side) (ls : list label) : nat :=
+  length (filter (fun f => match f with FSettingsAck => true | _ => false end) (from x ls)).
+Definition tab1 (m : N) (kv : list (N * N)) : N :=
+  fold_left (fun m p => if N.eqb (fst p) 1 then snd p else m) kv m.
+Definition tab_last (cur : N) (kvs : list (list (N * N))) : N := fold_left tab1 kvs cur.
+Definition tab_vals (kvs : list (list (N * N))) : list N :=
+  flat_map (fun kv => flat_map (fun p => if N.eqb (fst p) 1 then [snd p] else []) kv) kvs.
+Definition nmax (l : list N) (c : N) : N := fold_left N.max l c.
+Definition tab_bound (x : side) (ls : list label) : N :=
+  let kvs := settings_of x ls in
+  let a := acks_of (other x) ls in
+  nmax (tab_vals (skipn a kvs)) (tab_last 4096 (firstn a kvs)).
+Definition tab_of (w : wire) : N := match w with WBlock _ _ _ _ _ _ t => t | _ => 0%N end.
+Definition P_table (ls : list label) (o : obs) : Prop :=
+  forall k x w, (k < length o)%nat -> In x sides -> In w (to_side x (nth k o [])) ->
+    (tab_of w <= tab_bound x (pre (S k) ls))%N.
+Definition b_table (ls : list label) (o : obs) : bool :=
+  forallb (fun k => forallb (fun x =>
+      forallb (fun w => N.leb (tab_of w) (tab_bound x (pre (S k) ls))) (to_side x (nth k o []))) sides)
+    (seq 0 (length o)).
+(* the size the relay's encoder toward x uses (model): x's latest announcement *)
+Definition tabsz_of (x : side) (ls : list label) : N := tab_last 4096 (settings_of x ls).
+
 Definition P08 (ls : list label) (o : obs) : Prop :=
-  P_faithful false ls o /\ P_direct ls o.
+  P_faithful false ls o /\ P_direct ls o /\ P_table ls o.
 Definition c08_ok (ls : list label) (o : obs) : bool :=
-  b_faithful false ls o && b_direct ls o.
+  b_faithful false ls o && b_direct ls o && b_table ls o.
 (* the PRIORITY flag of HEADERS itself (known finding C08-K1) *)
 Definition c08_prio_ok (ls : list label) (o : obs) : bool := b_faithful true ls o.
 
 (* header blocks reach each endpoint in the order they were HPACK-encoded *)
 Definition block_seqs (x : side) (evs : list event) : list nat :=
-  flat_map (fun w => match w with WBlock _ _ _ _ q _ => [q] | _ => [] end) (to_side x evs).
+  flat_map (fun w => match w with WBlock _ _ _ _ q _ _ => [q] | _ => [] end) (to_side x evs).
 
 (* RFC 7540 validity of a script, as far as the relay is concerned: a header
    block opened by HEADERS or PUSH_PROMISE without END_HEADERS is continued by
